@@ -29,6 +29,8 @@ import (
 
 var c20Hostile = []string{
 	`'`, `''`, `\`, `\'`, `"`, `--`, `/*`, `;`, `$1`, `%s`, "a\x00b", `é`, `') OR ('1'='1`, `x'; DROP TABLE t; --`,
+	// hostile characters behind a long harmless prefix (validation or quoting applied to a truncated copy)
+	strings.Repeat("a", 60) + `'); DROP TABLE t; --`, strings.Repeat("b", 130) + `'`,
 }
 
 type c20Entry struct {
@@ -242,11 +244,11 @@ func C20(tier string) int {
 							continue // refused before any statement was built
 						}
 						distinct[sig+"|"+h] = true
-						bad := ""
+						bad, class := "", ""
 						for _, s := range got.stmts {
 							toks, err := sqlrec.Lex(s.Text, mysql)
 							if err != nil {
-								bad = fmt.Sprintf("statement does not lex (%v): %s", err, s.Text)
+								bad, class = fmt.Sprintf("statement does not lex (%v): %s", err, s.Text), "does-not-lex"
 								break
 							}
 							// (1) the token structure must be one the benign call produces too
@@ -258,17 +260,36 @@ func C20(tier string) int {
 								}
 								sort.Strings(bs)
 								bad = fmt.Sprintf("token structure is not one of the benign call's:\n hostile: %s\n benign:  %s", s.Kind+": "+sqlrec.Shape(toks), strings.Join(bs, " || "))
+								// what kind of difference: the same tokens except for the text of identifiers (a client
+								// name that is part of a table name by design) or a different token sequence
+								class = "token-sequence"
+								for _, bt := range benShapes {
+									if len(bt) != len(toks) {
+										continue
+									}
+									same := true
+									for i := range toks {
+										if toks[i].Kind != bt[i].Kind || (toks[i].Kind != "word" && toks[i].Kind != "string" && toks[i].Kind != "dollar" && toks[i].Kind != "number" && toks[i].Text != bt[i].Text) {
+											same = false
+											break
+										}
+									}
+									if same {
+										class = "identifier-text"
+										break
+									}
+								}
 								break
 							}
 							// (2) where the benign statement carries the benign input as a literal, the hostile one must carry the hostile input
 							for i := range toks {
 								if (toks[i].Kind == "string" || toks[i].Kind == "dollar") && i < len(btoks) && btoks[i].Val == e.Benign[pi] && toks[i].Val != hv {
-									bad = fmt.Sprintf("the literal that carries the client string decodes to %q instead of %q: %s", toks[i].Val, hv, s.Text)
+									bad, class = fmt.Sprintf("the literal that carries the client string decodes to %q instead of %q: %s", toks[i].Val, hv, s.Text), "literal-decodes-differently"
 								}
 							}
 						}
 						if bad != "" {
-							run.Report(vf.Violation{Sig: sig, Detail: fmt.Sprintf("%s(%s=%q): %s", e.Name, pos, hv, bad), Replay: rep})
+							run.Report(vf.Violation{Sig: sig + "|" + class, Detail: fmt.Sprintf("%s(%s=%q): %s", e.Name, pos, hv, bad), Replay: rep})
 						}
 						if len(samples) < 6 && cases%173 == 0 {
 							samples = append(samples, fmt.Sprintf("%s %s(%s=%q) -> %d statement(s), e.g. %s", tg.name, e.Name, pos, hv, len(got.stmts), got.stmts[0].Text))
@@ -283,7 +304,7 @@ func C20(tier string) int {
 	run.Coverage["distinct_nontrivial"] = len(distinct)
 	run.Coverage["hostile_strings"] = len(c20Hostile)
 	run.Coverage["entry_points_per_driver"] = len(targets[0].entries)
-	run.Coverage["rule"] = "every entry point x every client-string position x 14 hostile strings (existing-sql ids: hostile key and hostile table part); non-trivial = the call reached the database with at least one statement"
+	run.Coverage["rule"] = fmt.Sprintf("every entry point x every client-string position x %d hostile strings", len(c20Hostile)) + " (existing-sql ids: hostile key and hostile table part); non-trivial = the call reached the database with at least one statement"
 	run.Coverage["samples"] = samples
 	run.Coverage["exhaustive"] = true
 	run.Assume = []string{
